@@ -735,6 +735,7 @@ int vorbis_synthesis_blockin(vorbis_dsp_state *v,vorbis_block *vb){
   if(!vb)return(OV_EINVAL);
   if(v->pcm_current>v->pcm_returned  && v->pcm_returned!=-1)return(OV_EINVAL);
 
+  b->lapout_done=0;
   v->lW=v->W;
   v->W=vb->W;
   v->nW=-1;
@@ -978,6 +979,7 @@ int vorbis_synthesis_lapout(vorbis_dsp_state *v,float ***pcm){
   int n0=ci->blocksizes[0]>>(hs+1);
   int n1=ci->blocksizes[1]>>(hs+1);
   int i,j;
+  private_state *b=v->backend_state;
 
   if(v->pcm_returned<0)return 0;
 
@@ -988,6 +990,11 @@ int vorbis_synthesis_lapout(vorbis_dsp_state *v,float ***pcm){
      possibly needed. Otherwise, we'd need to call lapout more than
      once as well as hold additional dsp state.  Opt for
      simplicity. */
+
+  /* once per block: a second call (ov_crosslap called again before
+     anything was read) must not move the data again */
+  if(!b->lapout_done){
+  b->lapout_done=1;
 
   /* centerW was advanced by blockin; it would be the center of the
      *next* block */
@@ -1031,6 +1038,7 @@ int vorbis_synthesis_lapout(vorbis_dsp_state *v,float ***pcm){
       v->pcm_returned+=n1-n0;
       v->pcm_current+=n1-n0;
     }
+  }
   }
 
   if(pcm){
